@@ -34,7 +34,7 @@ fn meta() -> Meta {
     Meta {
         id: "C14",
         level: "model_checking",
-        rule: "every subset of size <= 2 (quick) / <= 3 (thorough) of the near-miss name alphabet (names sharing a prefix with the family: longer/shorter basename, other discriminant, other suffix, extra dots, missing infix, infix-like fragments, multi-byte characters, a sub-directory named like a log file), filtered to foreign names by the reference classifier, x naming x cleanup {Never, KeepLogFiles(1), KeepCompressedFiles(1)} x suffix {log, none} x restart append on/off, history W W W Restart W R W; states = distinct (configuration, foreign set) explored, transitions = runs executed (two per case); non-trivial = foreign set not empty; the alphabet also holds signed numbers (app_r+0042.log) and two entries that are not files (a directory and a symlink to a directory named like rotated files); the alphabet also holds a well-formed infix followed by more dotted text and the suffix / .gz in another case; and the name parts in another case",
+        rule: "every subset of size <= 2 (quick) / <= 3 (thorough) of the near-miss name alphabet (names sharing a prefix with the family: longer/shorter basename, other discriminant, other suffix, extra dots, missing infix, infix-like fragments, multi-byte characters, a sub-directory named like a log file), filtered to foreign names by the reference classifier, x naming x cleanup {Never, KeepLogFiles(1), KeepCompressedFiles(1)} x suffix {log, none} x restart append on/off, history W W W Restart W R W; states = distinct (configuration, foreign set) explored, transitions = runs executed (two per case); non-trivial = foreign set not empty; the alphabet also holds signed numbers (app_r+0042.log) and two entries that are not files (a directory and a symlink to a directory named like rotated files); the alphabet also holds a well-formed infix followed by more dotted text and the suffix / .gz in another case; and the name parts in another case; plus a named pipe, a timestamp shape that is no date, restart extensions followed by text, files of the other timestamp scheme, and (timestamp namings) a directory with exactly the name of the next rotation target",
         assumptions: vec![
             "reference classifier of family membership written from the documentation of FileSpec / Naming (family.rs)".into(),
             "virtual clock identical in both runs".into(),
